@@ -8,12 +8,13 @@ import SageoptModel.Drv.Sage
 import SageoptModel.Drv.Vars
 import SageoptModel.Drv.Glue
 import SageoptModel.Drv.Wiring
+import SageoptModel.Drv.Relax
 open Lean
 
 namespace Sageopt.Drv
 
 def allHandlers : List (String × Handler) :=
-  GF2.handlers ++ Solvers.handlers ++ Sig.handlers ++ SigL.handlers ++ SigCalc.handlers ++ Compile.handlers ++ Sage.handlers ++ Vars.handlers ++ Glue.handlers ++ Wiring.handlers
+  GF2.handlers ++ Solvers.handlers ++ Sig.handlers ++ SigL.handlers ++ SigCalc.handlers ++ Compile.handlers ++ Sage.handlers ++ Vars.handlers ++ Glue.handlers ++ Wiring.handlers ++ Relax.handlers
 
 def dispatch (line : String) : String :=
   match Json.parse line with
